@@ -933,6 +933,8 @@ def _async_worker(
                         (
                             np.array(data[idx]).reshape(action_shape[possible_agent])
                             if action_shape[possible_agent] is not None
+                            and np.size(data[idx])
+                            == int(np.prod(action_shape[possible_agent]))
                             else np.array(data[idx]).squeeze()
                         )
                         if not isinstance(data[idx], int)
